@@ -235,7 +235,8 @@ LEVEL_TEXT = ("Proof (verified checker): C08_check_sound: a graph accepted by ch
               "graph on every case. CUDA-event synchronisation is modelled as attaching no edge (what the code does under pandas 3). The window clipping "
               "(coq/model/C08_Clip.v) is modelled too: C08_window_closed (a kept device row's launching / synchronising call is kept, so the builder's look-up of "
               "its nodes cannot fail; host rows are kept exactly when they start in the window and last); the kept row set is compared on every case."
-              " C08_host_resolution_independent: the host-side builder yields the same edges with node times and weights multiplied by k.")
+              " C08_host_resolution_independent: the host-side builder yields the same edges with node times and weights multiplied by k."
+              " C08_dev_resolution_independent / C08_window_resolution_independent: the device-side loop, the window and the kept rows behave the same at every resolution.")
 LEVEL_NOTE = ("Translation-validation style: the theorem is about the checker, the tie to the code is the per-run evaluation of the checker on the real graph. "
               "Event-record / stream-wait synchronisation is generated but attaches no edge under pandas 3 (see assumptions), so the event-sync edge rules are exercised only vacuously. networkx's topological order is an unchecked hint for the checked rank witness.")
 TECHNIQUE = "Coq-verified checker (reflection of the property's clauses; acyclicity by rank function) evaluated by vm_compute on every real graph + Gallina model of the host-side builder (state-machine invariant proof) in differential correspondence"
